@@ -69,6 +69,21 @@ def run(ctx):
         th = rng.choice([1, 4])
         a = Case(recs, t, threads=th, api=api, fmt="fasta")
         b = Case(alt, t, threads=th, api=api, fmt="fasta")
+        if api == "file" and rng.random() < 0.5 and all(s for _, s in recs):
+            # the same two spellings presented as CLUSTAL / MSF / gapped FASTA (each reader counts letters on its own)
+            import random as _random
+            from props import c04
+            rows = c04.gap_rows(rng, recs, rng.choice([0.0, 0.05]))
+
+            def relabel(row, s):
+                it = iter(s)
+                return "".join(ch if not ch.isalpha() else next(it) for ch in row)
+            rows_alt = [(n, relabel(r, s2)) for (n, r), (_, s2) in zip(rows, alt)]
+            render = rng.choice([c04.render_clustal, c04.render_msf, c04.render_fasta])
+            k = rng.getrandbits(30)
+            a = Case(recs, t, threads=th, api=api, fmt="fasta", intext=render(_random.Random(k), rows), tag=render.__name__)
+            b = Case(alt, t, threads=th, api=api, fmt="fasta", intext=render(_random.Random(k), rows_alt), tag=render.__name__)
+            ctx.count("presented_" + render.__name__)
         pairs.append((a, b))
     sysrun.run_cases(kvh, [c for p in pairs for c in p])
     fails = []
